@@ -170,9 +170,11 @@ def run(ctx):
         Xn = hostile(rng, n, p, kind)
         X = pd.DataFrame(Xn)
         sc = rng.choice([0.0, 0.05, 0.3, 1.0])
-        for name, mk in [("CAPA", lambda: CAPA(collective_penalty_scale=sc, point_penalty_scale=sc, min_segment_length=m, max_segment_length=M)),
+        ign = rng.random() < 0.5
+        for name, mk in [("CAPA", lambda: CAPA(collective_penalty_scale=sc, point_penalty_scale=sc, min_segment_length=m, max_segment_length=M,
+                                               ignore_point_anomalies=ign)),
                          ("MVCAPA", lambda: MVCAPA(collective_penalty_scale=sc, point_penalty_scale=sc, min_segment_length=m, max_segment_length=M,
-                                                   collective_penalty=rng.choice(["combined", "dense", "sparse"])))]:
+                                                   collective_penalty=rng.choice(["combined", "dense", "sparse"]), ignore_point_anomalies=ign))]:
             inp = {"detector": name, "min_segment_length": m, "max_segment_length": M, "penalty_scales": sc, "n": n, "p": p, "data": kind, "X": Xn.tolist()}
             d, y = attempt(name, mk, X, inp)
             if y is None:
@@ -240,12 +242,14 @@ def run(ctx):
             for name in ("CAPA(table)", "MVCAPA(table)"):
                 inp = {"detector": name, "min_segment_length": m, "max_segment_length": M, "n": n, "p": pt, "tables": stabs, "alpha_c": ac, "alpha_p": ap, "betas": bb}
                 try:
+                    ign = rng.random() < 0.5
                     if name.startswith("CAPA"):
-                        dd = CAPA(collective_saving=ts.TableSaving(stabs), point_saving=ts.TableSaving(stabs), min_segment_length=m, max_segment_length=M).fit(Xz)
+                        dd = CAPA(collective_saving=ts.TableSaving(stabs), point_saving=ts.TableSaving(stabs), min_segment_length=m, max_segment_length=M,
+                                  ignore_point_anomalies=ign).fit(Xz)
                         dd.collective_penalty_, dd.point_penalty_ = float(ac), float(ap)
                     else:
                         dd = MVCAPA(collective_saving=ts.TableSaving(stabs), point_saving=ts.TableSaving(stabs), min_segment_length=m, max_segment_length=M,
-                                    collective_penalty=pen_callable(ac, bb), point_penalty=pen_callable(ap, bb)).fit(Xz)
+                                    collective_penalty=pen_callable(ac, bb), point_penalty=pen_callable(ap, bb), ignore_point_anomalies=ign).fit(Xz)
                     y = dd.predict(Xz)
                 except Exception as ex:
                     ctx.violation(f"{name} raised {type(ex).__name__}: {str(ex)[:100]}", inp, {"what": "exception", "detector": name})
